@@ -1075,12 +1075,14 @@ def run_case(case, root):
         for i in sel:
             f = regs[i]
             # a domain is converted via a field that has that domain (CFDMImplementation.convert)
-            host = f if is_field(f) else cfdm.Field(source=f)
+            host = f if is_field(f) else None
             for k, cm in sorted(f.cell_measures(todict=True).items()):
                 if cm.nc_get_external() and cm.has_data() and cm.nc_get_variable(None) is not None:
                     try:
+                        if host is None:
+                            host = cfdm.Field(source=f)
                         efsel.append([i, k, list(data_constructs(host.convert(k)))])
-                    except Exception:  # noqa
+                    except Exception:  # noqa  (an inconsistent construct: the writer will meet the same)
                         pass
         interned = {}
 
